@@ -4,9 +4,9 @@
    step and replayed on a real RuleBlock.  Canary: loads that keep the previous parse when they fail. *)
 EXTENDS RuleLifecycle, TLC, Json
 CONSTANTS MaxSteps, Emit
-TextsDef == <<"good", "good", "bad-ante", "bad-cons">>       \* cfg: Texts <- TextsDef
+TextsDef == <<"good", "good", "bad-ante", "bad-cons", "v1-only", "v2-only">>       \* cfg: Texts <- TextsDef
 VARIABLES steps, expect
-vars == <<rules, raised, steps, expect>>
+vars == <<rules, raised, voc, steps, expect>>
 Obs == [rules |-> rules', raised |-> raised']
 Log(a, i, t) == steps' = Append(steps, [act |-> a, i |-> i, t |-> t]) /\ expect' = Append(expect, Obs)
 Init == RInit /\ steps = <<>> /\ expect = <<>>
@@ -18,15 +18,16 @@ Next == /\ Len(steps) < MaxSteps
            \/ LoadRules /\ Log("load_rules", 0, 0)
            \/ UnloadRules /\ Log("unload_rules", 0, 0)
            \/ ReloadRules /\ Log("restart", 0, 0)
+           \/ Rename /\ Log("rename", 0, 0)
 Spec == Init /\ [][Next]_vars
 LastIs(a) == steps # <<>> /\ steps[Len(steps)].act = a
 PropFailedLoad == [][\A i \in 1..NRules : (steps' # steps /\ steps'[Len(steps')].act = "load" /\ steps'[Len(steps')].i = i) => NotLoadedAfterFailedLoad(i)]_vars
 PropGoodLoad   == [][\A i \in 1..NRules : (steps' # steps /\ steps'[Len(steps')].act = "load" /\ steps'[Len(steps')].i = i) => LoadedFromCurrentText(i)]_vars
 \* load_rules / restart: every rule whose text loads is loaded from it, whatever the other rules do; it raises iff some rule fails
 BlockLoad == (LastIs("load_rules") \/ LastIs("restart")) =>
-               /\ \A i \in 1..NRules : (Texts[rules[i].txt] = "good") <=> IsLoaded(rules[i])
+               /\ \A i \in 1..NRules : (ClassOf(rules[i].txt) = "good") <=> IsLoaded(rules[i])
                /\ \A i \in 1..NRules : IsLoaded(rules[i]) => rules[i].ante = rules[i].txt
-               /\ raised = (\E i \in 1..NRules : Texts[rules[i].txt] # "good")
+               /\ raised = (\E i \in 1..NRules : ClassOf(rules[i].txt) # "good")
 EmitInv == (Emit /\ Len(steps) = MaxSteps) => PrintT(ToJson([steps |-> steps, expect |-> expect]))
-View == <<rules, raised, Len(steps), IF steps = <<>> THEN <<>> ELSE steps[Len(steps)]>>
+View == <<rules, raised, voc, Len(steps), IF steps = <<>> THEN <<>> ELSE steps[Len(steps)]>>
 =============================================================================
